@@ -239,8 +239,10 @@ def judge (op obs : String) : String :=
           joinC ((chans v).map (fun c => showSrc v (v.src c x y)))))
         if toks = want then "ok" else fail "resize-identity"
       else
-        -- every destination pixel is sampled (none left at the sentinel unless the source holds it) and within the source's range
-        let bad := toks.any (fun t => match parseC t with
+        -- other sizes: the property only demands per-pixel sampling; a destination pixel is either left untouched
+        -- (its source point was reported outside: this happens for 1-pixel-wide/high sources, see the notes) or within the source's range
+        let sent := joinC ((chans v).map (fun _ => showSrc v v.sentinel))
+        let bad := toks.any (fun t => t != sent && match parseC t with
           | some vs => (chans v).zip vs |>.any (fun (c, x) =>
               let all := (irange h.toNat).flatMap (fun y => (irange w.toNat).map (fun xx => showSrc v (v.src c xx y)))
               !(all.any (· ≤ x) && all.any (· ≥ x)))
